@@ -128,15 +128,18 @@ def run(prop, tier, seed, t0):
     # ---- second solver: re-run a sample of bundles with cvc5; for sub-cases that are complete under both
     # solvers the number of feasible paths and the violated labels must coincide
     xcheck = dict(bundles=0, subcases_compared=0, disagreements=[])
-    sample = [b for b in plan["bundles"] if b.get("_engine", "symx") == "symx"]
+    # (only bundles that did run under z3; the re-run has its own wall budget: a fifth of the tier's, at least 5 minutes)
+    ran = {json.dumps(b, sort_keys=True) for (b, recs, err, secs) in results_by_engine.get("symx", []) if recs}
+    sample = [b for b in plan["bundles"] if b.get("_engine", "symx") == "symx" and json.dumps(b, sort_keys=True) in ran]
     sample = sample[:: max(1, len(sample) // (3 if tier == "quick" else 24))][: (3 if tier == "quick" else 24)]
+    xdeadline = time.time() + max(300.0, 0.2 * wall_budget)
     if sample and binp:
         key = lambda rec: json.dumps(rec["case"], sort_keys=True)
         z3res = {}
         for (bundle, recs, err, secs) in results_by_engine.get("symx", []):
             for rec in recs:
                 z3res[key(rec)] = rec["report"]
-        for (bundle, recs, err, secs) in runner.run_all(binp, [dict(b, _solver="cvc5") for b in sample], timeout):
+        for (bundle, recs, err, secs) in runner.run_all(binp, [dict(b, _solver="cvc5") for b in sample], timeout, None, xdeadline):
             xcheck["bundles"] += 1
             for rec in recs:
                 a, b2 = z3res.get(key(rec)), rec["report"]
